@@ -342,6 +342,8 @@ namespace detail {
             using locator_t = typename type::xy_locator;
             using x_iterator_t = typename type::x_iterator;
             using x_iterator_base_t = typename iterator_adaptor_get_base<x_iterator_t>::type;
+            // an empty view has no pixel (0,0) whose channel could be addressed
+            if (src.empty()) return type(src.dimensions(), typename type::xy_locator());
             x_iterator_t sit(x_iterator_base_t(&(src(0,0)[n])),src.pixels().pixel_size());
             return type(src.dimensions(),locator_t(sit, src.pixels().row_size()));
         }
@@ -353,6 +355,8 @@ namespace detail {
         using type = typename view_type<typename channel_type<View>::type, gray_layout_t, false, false, view_is_mutable<View>::value>::type;
         static type make(View const& src, int n) {
             using x_iterator_t = typename type::x_iterator;
+            // an empty view has no pixel (0,0) whose channel could be addressed
+            if (src.empty()) return type(src.dimensions(), typename type::xy_locator());
             return interleaved_view(src.width(),src.height(),(x_iterator_t)&(src(0,0)[n]), src.pixels().row_size());
         }
     };
@@ -469,6 +473,8 @@ namespace detail {
             using locator_t = typename type::xy_locator;
             using x_iterator_t = typename type::x_iterator;
             using x_iterator_base_t = typename iterator_adaptor_get_base<x_iterator_t>::type;
+            // an empty view has no pixel (0,0) whose channel could be addressed
+            if (src.empty()) return type(src.dimensions(), typename type::xy_locator());
             x_iterator_t sit(x_iterator_base_t(&gil::at_c<K>(src(0,0))),src.pixels().pixel_size());
             return type(src.dimensions(),locator_t(sit, src.pixels().row_size()));
         }
@@ -483,6 +489,8 @@ namespace detail {
         using type = typename view_type<channel_t, gray_layout_t, false, false, view_is_mutable<View>::value>::type;
         static type make(View const& src) {
             using x_iterator_t = typename type::x_iterator;
+            // an empty view has no pixel (0,0) whose channel could be addressed
+            if (src.empty()) return type(src.dimensions(), typename type::xy_locator());
             return interleaved_view(src.width(),src.height(),(x_iterator_t)&gil::at_c<K>(src(0,0)), src.pixels().row_size());
         }
     };
